@@ -93,12 +93,17 @@ Fixpoint pmodel (lims : list (Z * Z * bool * nat)) (st : pstate) (ops : list xpo
       let k := kid pfx key in
       let (st', out) := pstep st (PTake k quota w (negb down)) in
       window_ok align period w exp &&
-      match out with
-      | Some (_, res) => res_eqb res code err || (cut && res_eqb (Err 1%nat) code err)
-      | None => false
-      end &&
-      ent_eqb (fst st') (rget (fst st') k (snd st')) ent &&
-      pmodel lims st' r
+      (* the script ran (the caller of a cut take may have seen its answer or the context error) ... *)
+      ((match out with
+        | Some (_, res) => res_eqb res code err || (cut && res_eqb (Err 1%nat) code err)
+        | None => false
+        end &&
+        ent_eqb (fst st') (rget (fst st') k (snd st')) ent &&
+        pmodel lims st' r) ||
+       (* ... or the cancelled call was torn down before the server ran it: nothing happened *)
+       (cut && res_eqb (Err 1%nat) code err &&
+        ent_eqb (fst st) (rget (fst st) k (snd st)) ent &&
+        pmodel lims st r))
   | XPConc lim key g w counts errs ent exp :: r =>
       let '(period, quota, align, pfx) := lim_of lims lim in
       let k := kid pfx key in
@@ -133,10 +138,11 @@ Fixpoint pspec (lims : list (Z * Z * bool * nat)) (t : Z) (ws : windows) (ops : 
       else
         let wl := if align then w else period in
         let (ws', c) := wtake t (kid pfx key) quota wl ws in
-        (* a take whose caller gave up while it was at the server still counts in its window, which
-           still expires; the caller got the answer or no admission at all *)
-        (((err =? 0) && (code =? c)) || (cut && negb (err =? 0) && negb (code =? S_Allowed) && negb (code =? S_HitQuota))) &&
-        (1 <=? wl) && (wl <=? period) && pspec lims t ws' r
+        (1 <=? wl) && (wl <=? period) &&
+        (((err =? 0) && (code =? c) && pspec lims t ws' r) ||
+         (* the caller gave up: no admission; its take counts if the server still ran it, else not *)
+         (cut && negb (err =? 0) && negb (code =? S_Allowed) && negb (code =? S_HitQuota) &&
+          (pspec lims t ws' r || pspec lims t ws r)))
   | XPConc lim key g w counts errs ent exp :: r =>
       let '(period, quota, align, pfx) := lim_of lims lim in
       if period <? 1 then true
